@@ -147,6 +147,16 @@ func (w *world) allInts(o *obj) bool {
 	return true
 }
 
+// allNames: every element is a symbol or a string (a keys-style list).
+func (w *world) allNames(o *obj) bool {
+	for _, c := range w.cells(o) {
+		if c.t != tSym && c.t != tStr {
+			return false
+		}
+	}
+	return true
+}
+
 // reach collects every object reachable from v.
 func (w *world) reach(v val, seen map[int]bool) {
 	if v.t != tRef || seen[v.n] {
